@@ -250,7 +250,7 @@ where
                         let h = hm / 100;
                         out.offset = Some(s * (h * 3600 + m * 60));
                         Ok(())
-                    } else if let Ok(h) = i32::from_str_radix(&h, 10) {
+                    } else if let Some(h) = parse_range(&h, 0, 0..=24) {
                         take!(DateToken::Colon);
                         let m = take!(DateToken::Number(s, None), s);
                         if let Some(m) = parse_range(&m, 2, 0..=59) {
